@@ -143,7 +143,7 @@ def match_known(spec: CheckSpec, replay_doc: dict, known: list) -> dict | None:
 
 
 def write_replay(spec: CheckSpec, seed: int, run: int, doc: dict) -> str:
-    d = os.path.join(env.VERIF_ROOT, "replays")
+    d = os.path.join(env.OUT_ROOT, "replays")
     os.makedirs(d, exist_ok=True)
     oid = doc["expected"]["oracle"].replace("/", "_")
     path = os.path.join(d, f"{oid}-{seed}-{run}.json")
@@ -340,8 +340,8 @@ def run_check(spec: CheckSpec, tier: str, seed: int, workers: int | None = None,
         "wall_s": round(wall, 2),
         "violations": n_viol,
     }
-    os.makedirs(os.path.join(env.VERIF_ROOT, "evidence"), exist_ok=True)
-    with open(os.path.join(env.VERIF_ROOT, "evidence", f"{spec.pid}.json"), "w") as f:
+    os.makedirs(os.path.join(env.OUT_ROOT, "evidence"), exist_ok=True)
+    with open(os.path.join(env.OUT_ROOT, "evidence", f"{spec.pid}.json"), "w") as f:
         json.dump(ev, f, indent=1, default=str)
     print(
         f"{spec.pid} tier={tier} seed={seed} runs={n_done}/{n_runs} steps={cov['steps']} "
